@@ -10,7 +10,7 @@ func runC12(e *env) {
 	e.m.Rule = "corpus modules (self / mutual recursion through slices, maps, arrays and pointers; named over named; time and date types; generic instantiations; stdlib and sub-package types; aliases; embedded structs; source order) " +
 		"then seeded synthesised modules; one evaluation = one module: every position reachable from the file's declarations; non-trivial = the reached graph has at least 8 nodes; distinct = distinct sources"
 	e.m.Extra = map[string]interface{}{"mismatch_means": "model"}
-	specs := corpusGraph()
+	specs := append(corpusGraph(), repoFixtures("repo-testsource-defs", "repo-testsource-other", "repo-sql-models")...)
 	n := 24
 	if e.thorough() {
 		n = 300
